@@ -674,6 +674,10 @@ static const imbh_variant *g_var;
 static int g_reinit_count;
 static int g_xprop;
 static long g_total_xprop, g_xprop_printed;
+#define SIG_SLOTS    8192
+#define FAIL_PER_SIG 12
+static uint64_t g_sig_hash[SIG_SLOTS];
+static unsigned g_sig_count[SIG_SLOTS];
 
 static int
 suite_of(const int cipher, const int hash)
@@ -718,6 +722,23 @@ fail(const k3_case *c, const k3_ctx *x, const char *kind, const char *obj, const
         }
         g_total_fail++;
         g_suites[c->suite].fails++;
+        /* at most FAIL_PER_SIG lines per (suite, kind, object): one noisy defect must not hide another */
+        {
+                char key[96];
+                uint64_t h = UINT64_C(0xcbf29ce484222325);
+
+                snprintf(key, sizeof(key), "%d/%d|%s|%s|%d", c->it0->cipher, c->it0->hash, kind, obj,
+                         x->batch > 1);
+                for (const char *p = key; *p; p++)
+                        h = (h ^ (uint8_t) *p) * UINT64_C(0x100000001b3);
+                size_t slot = (size_t) (h % SIG_SLOTS);
+
+                while (g_sig_hash[slot] != 0 && g_sig_hash[slot] != h)
+                        slot = (slot + 1) % SIG_SLOTS;
+                g_sig_hash[slot] = h;
+                if (++g_sig_count[slot] > FAIL_PER_SIG)
+                        return;
+        }
         if (g_fail_printed >= g_max_fail_lines)
                 return;
         g_fail_printed++;
@@ -1559,6 +1580,8 @@ run_variant(const imbh_variant *v, const int footprint_only)
         g_kasumi_ks = IMB_KASUMI_KEY_SCHED_SIZE(v->mgr);
         g_nsuites = 0;
         memset(g_suites, 0, sizeof(g_suites));
+        memset(g_sig_hash, 0, sizeof(g_sig_hash));
+        memset(g_sig_count, 0, sizeof(g_sig_count));
         g_npend = 0;
         flush_pending(&seed);
         for (size_t at = 0; at < g_nitems; at++) {
